@@ -54,6 +54,12 @@ def neighbours(s, rng):
             out.add(s + ch * c)
         out.add(ch + s)
         out.add(s + ch * 100)
+    # a suffix or prefix of the spelling repeated (FIDO_2_1_PRE_PRE, FIDO_FIDO_2_0, hmac-secret-secret): stripping "all" occurrences of a
+    # marker instead of one accepts exactly these
+    for j in range(1, len(s) - 1):
+        out.add(s + s[j:])
+        out.add(s + s[j:] * 2)
+        out.add(s[:j] + s)
     return sorted(out)
 
 
